@@ -48,6 +48,9 @@ def _build(ctx, i, kind, never_ends=False):
     return env, ref, tl
 
 
+_PLAN = {}
+
+
 def _dec(o, nS):
     return int(np.argmax(o[:nS])), int(round(float(o[nS])))
 
@@ -119,6 +122,20 @@ def _judge(ctx, tag, ref, tl, buf, env_state, pol_state_n, expected_position, ca
             k = "both" if (term and trunc) else ("terminal_only" if term else "truncation_only")
             kinds.add(k)
             ctx.monitor("episode_ends_" + k)
+        if stateful and info.get("planned") and _PLAN.get("f") is not None:
+            # the behaviour policy's choice is a known function of its stored step counter: "the action chosen"
+            want_a = np.asarray(_PLAN["f"](int(buf["states"][idx])), np.float32)
+            ctx.monitor("stored_actions_compared_with_the_policys_choice")
+            got_a = np.asarray(a, np.float64).reshape(want_a.shape)
+            # (compiled and eager evaluation of the plan may differ in the last bits: fused multiply-add)
+            if not np.all(np.abs(got_a - want_a) <= 1e-5 * (1 + np.abs(want_a))):
+                d = {"stored": a, "chosen": want_a, "stored_equals_clipped_choice": bool(np.array_equal(np.asarray(a, np.float32).reshape(want_a.shape), ref.clip(want_a)))}
+                bad("stored-action-not-the-one-the-policy-chose", d)
+        elif ref.kind == "box" and info.get("policy") == "WildSACPolicy":
+            # continuous law: a stored action sitting exactly on a bound has (practically) been clipped before storing
+            on_b = int(np.sum((np.asarray(a, np.float32) == np.float32(ref.low)) | (np.asarray(a, np.float32) == np.float32(ref.high))))
+            if on_b:
+                ctx.monitor("stored_action_components_exactly_on_a_bound", on_b)
         if stateful:
             pn = int(buf["states"][idx])
             if prev is not None and prev[2] and pn != 0:
@@ -202,7 +219,9 @@ def _run(ctx, algo_name, policy_name, n, never_ends=False):
             algo = SAC(buffer_size=bsize, learning_starts=ls, num_envs=E, num_steps=S, batch_size=batch,
                        q_width_size=8, q_depth=1, gamma=0.9)
             pol = (MLPSACPolicy(env, key=ctx.key(i), feature_size=4, width_size=8) if policy_name == "MLPSACPolicy"
-                   else WildSACPolicy(env))
+                   else WildSACPolicy(env, planned=(i % 2 == 1)))
+            info["planned"] = bool(getattr(pol, "planned", False))
+            _PLAN["f"] = pol.plan if info["planned"] else None
         cb = algo.consolidate_callbacks(None)
         st = eqx.filter_jit(lambda k: algo.reset(env, pol, key=k, callback=cb))(ctx.key(1000 + i))
         for e, (bufd, fs, pn) in enumerate(_np_buffers(st.step_state, tl, E)):
@@ -250,6 +269,11 @@ def run_unit(name, ctx):
     elif name == "sac_wild":
         _run(ctx, "SAC", "WildSACPolicy", ctx.n(8, 60))
         ctx.require("chosen_actions_outside_bounds", 10)
+        ctx.require("stored_actions_compared_with_the_policys_choice", 20)
+        if ctx.monitors.get("stored_action_components_exactly_on_a_bound", 0) >= 3:
+            ctx.violation("stored-actions-sit-exactly-on-the-bounds-clipped-before-storing",
+                          {"components_on_a_bound": ctx.monitors["stored_action_components_exactly_on_a_bound"],
+                           "policy": "WildSACPolicy: scale * normal(key), a continuous law"})
     elif name == "clock":
         _run(ctx, "DQN", "MLPQPolicy", ctx.n(4, 20), never_ends=True)
         _run(ctx, "SAC", "WildSACPolicy", ctx.n(3, 12), never_ends=True)
